@@ -44,7 +44,7 @@ TECHNIQUE = "model-free stateful PBT: op-list histories (exhaustive small scope 
 
 OPS_W = (
     ["edge"] * 5 + ["v1"] * 3 + ["v2"] * 3 + ["link"] * 2 + ["unlink"] * 2
-    + ["al", "rl", "av", "uf"] * 2 + ["newv", "adj", "flag", "bulk"]
+    + ["al", "rl", "av", "uf"] * 2 + ["newv", "adj", "flag", "bulk"] + ["edge_attr", "newv_attr"]
 )
 
 # coverage-guided extra engine (atheris): executions per fuzzer process, 16 processes
